@@ -1,5 +1,7 @@
 package twig
 
+import "os"
+
 // C02: concurrent use of one engine is safe. Interleavings are not solver variables; what is decided
 // symbolically is the sufficient condition lock discipline: on every path of every concurrently
 // callable entry point, every access to memory reachable from the shared engine (and its loaders) is
@@ -224,4 +226,124 @@ func VH_C02_Interleave() {
 	symAssert(e1 == nil && e2 == nil, "concurrent-call-no-error")
 	symAssert(o1 == vhC02IOps[p].want(x), "concurrent-call-equals-serial-call")
 	symAssert(o2 == vhC02IOps[q].want(y), "concurrent-call-equals-serial-call")
+}
+
+// ---- file-system loader -----------------------------------------------------------------------------
+
+// vhC02FSEngine: an engine whose templates come from a FileSystemLoader over a fresh directory
+// (the symbolic engine models package os in memory; natively a temporary directory is used).
+func vhC02FSEngine() (*Engine, *FileSystemLoader, string) {
+	dir, err := os.MkdirTemp("", "vhc02")
+	if err != nil {
+		panic(vhStop{"no temporary directory"})
+	}
+	os.MkdirAll(dir+"/sub", 0755)
+	os.WriteFile(dir+"/page.twig", []byte("P{{ x }}{% include 'sub/part' %}"), 0644)
+	os.WriteFile(dir+"/sub/part.twig", []byte("p{{ x }}"), 0644)
+	os.WriteFile(dir+"/other.twig", []byte("O{{ x }}"), 0644)
+	e := New()
+	l := NewFileSystemLoader([]string{dir})
+	e.RegisterLoader(l)
+	return e, l, dir
+}
+
+var vhC02FSOps = []vhC02IOp{
+	{"fs-render-page", vhC02Render("page", nil), func(x string) string { return "P" + x + "p" + x }},
+	{"fs-render-other", vhC02Render("other", nil), func(x string) string { return "O" + x }},
+	{"fs-load", func(e *Engine, x string) (string, error) {
+		t, err := e.Load("sub/part")
+		if err != nil {
+			return "", err
+		}
+		return t.Render(map[string]interface{}{"x": x})
+	}, func(x string) string { return "p" + x }},
+	{"fs-missing", func(e *Engine, x string) (string, error) {
+		_, err := e.Load("nosuch")
+		if err == nil {
+			return "loaded", nil
+		}
+		return "missing", nil
+	}, func(x string) string { return "missing" }},
+}
+
+// VH_C02_FSDiscipline: lock discipline of the calls that go through a FileSystemLoader.
+func VH_C02_FSDiscipline() {
+	e, l, dir := vhC02FSEngine()
+	defer os.RemoveAll(dir)
+	if symBool() {
+		e.SetCache(false)
+	}
+	if symBool() {
+		e.SetAutoReload(true)
+	}
+	if symBool() {
+		e.Render("page", map[string]interface{}{"x": "w"}) // warm
+	}
+	op := symChoice(len(vhC02FSOps))
+	symTag("op:" + vhC02FSOps[op].name)
+	x := symStringIn(1, "ab")
+	symMarkShared(e, "engine")
+	symMarkShared(l, "fsloader")
+	symConcurrentPhase(true)
+	vhC02FSOps[op].run(e, x)
+	symConcurrentPhase(false)
+	symCover("done")
+}
+
+// VH_C02_FSInterleave: two calls through the FileSystemLoader under every interleaving at
+// synchronisation points (see VH_C02_Interleave).
+func VH_C02_FSInterleave() {
+	e, _, dir := vhC02FSEngine()
+	defer os.RemoveAll(dir)
+	if symBool() {
+		e.SetCache(false)
+	}
+	if symBool() {
+		e.SetAutoReload(true)
+	}
+	p, q := symChoice(len(vhC02FSOps)), symChoice(len(vhC02FSOps))
+	x, y := symStringIn(1, "ab"), symStringIn(1, "ab")
+	symTag("ops:" + vhC02FSOps[p].name + "+" + vhC02FSOps[q].name)
+	var o1, o2 string
+	var e1, e2 error
+	symParallel(func() { o1, e1 = vhC02FSOps[p].run(e, x) }, func() { o2, e2 = vhC02FSOps[q].run(e, y) })
+	symCover("joined")
+	symAssert(e1 == nil && e2 == nil, "concurrent-call-no-error")
+	symAssert(o1 == vhC02FSOps[p].want(x), "concurrent-call-equals-serial-call")
+	symAssert(o2 == vhC02FSOps[q].want(y), "concurrent-call-equals-serial-call")
+}
+
+// VH_C02_FSStress: native confirmation for the file-system loader: goroutines load through one
+// FileSystemLoader at the same time, many rounds with a fresh engine and loader (go test -race).
+func VH_C02_FSStress() {
+	for round := 0; round < 60; round++ {
+		e, _, dir := vhC02FSEngine()
+		if round%2 == 1 {
+			e.SetCache(false)
+		}
+		done := make(chan bool, 8)
+		start := make(chan struct{})
+		for g := 0; g < 8; g++ {
+			go func(g int) {
+				<-start
+				ok := true
+				for i := 0; i < 4; i++ {
+					op := vhC02FSOps[(g+i)%len(vhC02FSOps)]
+					o, err := op.run(e, "a")
+					if err != nil || o != op.want("a") {
+						ok = false
+					}
+				}
+				done <- ok
+			}(g)
+		}
+		close(start)
+		for g := 0; g < 8; g++ {
+			if !<-done {
+				symAssert(false, "concurrent-call-equals-serial-call")
+			}
+		}
+		os.RemoveAll(dir)
+	}
+	symCover("stressed")
 }
